@@ -24,11 +24,17 @@ ASSUMPTIONS = ['extractor contract: get_next_imf without energy threshold return
                'continue flag (checked on every table row)',
                'interp_envelope returns None iff the signal has fewer than two strict interior maxima (upper) / minima (lower) '
                '(stream env_none: real interp_envelope vs the model count (op PEAKS) vs an independent counter)']
-RULE = ('random signals of 9 families (noise, random walk, tones+trend, AM/FM, integer plateaus, constants, ramps, engineered '
-        'few-extrema n=5..16, perfect IMFs) x stop rule {sd, rilling, fixed} x step {1, 1/2, 1/3, 1/4, random} x interpolation '
+RULE = ('random signals of 10 families (noise, random walk, tones+trend, AM/FM, integer plateaus, constants, ramps, engineered '
+        'few-extrema n=5..16, perfect IMFs, long ramps (n=200..2000, corpus 3000) with one short burst near one end: few extrema far '
+        'from the other edge; pure / AM / FM tones in which one IMF dominates its layer) x stop rule {sd, rilling, fixed} x step {1, 1/2, 1/3, 1/4, random} x interpolation '
         '{splrep, pchip, mono_pchip} x pad_width {1,2,3,5}; mostly no cap / default threshold / no energy threshold (the quantifier '
         'of C01), plus cut-short variants (cap, large sift_thresh, energy threshold). Non-trivial: at least two components and a '
-        'natural (flag) exit, or an extraction that lost its extrema after >= 1 mean removals; distinct by content hash.')
+        'natural (flag) exit, or an extraction that lost its extrema after >= 1 mean removals; distinct by content hash. '
+        'A block of cases relies on the built-in option defaults (imf_opts omitted / None / {}: no energy threshold was requested, so none may cut the sift short); '
+        'a block stores the signal as int64 / int16 / uint8 / float32 instead of float64 (case values exactly representable). '
+        'The library is handed fresh writable arrays and every verdict uses the pristine input. Not judged (skipped, tagged): time-outs. '
+        'Mechanism-level (broken correspondence, never a replayable C01 violation): the extractor contract on get_next_imf, cap respect (C03), '
+        'reproduction of a convergence error by the harness peeling, the whole env_none stream (assumption validator).')
 
 IMPL_TIMEOUT = 40
 
@@ -36,6 +42,125 @@ IMPL_TIMEOUT = 40
 def _cols(arr):
     arr = np.asarray(arr)
     return [S.fr_list(arr[:, i]) for i in range(arr.shape[1])]
+
+
+# the documented defaults of sift() / get_next_imf(): what a call that omits imf_opts (or passes None / {}) asks for.  No energy
+# threshold is among them: C01 exempts only an EXPLICITLY requested cut-short
+DEFAULTS = {'stop_method': 'sd', 'sd_thresh': 0.1, 'env_step_size': 1, 'max_iters': 1000, 'interp_method': 'splrep',
+            'pad_width': 2, 'energy_thresh': None}
+STORAGE = ['int64', 'int16', 'uint8', 'float32']      # storage types of the input besides float64
+
+
+def as_stored(x, dtype):
+    """the values of x that are exactly representable in `dtype` (what case['x'] holds for a dtype case)"""
+    a = np.asarray(x, dtype=float)
+    if dtype.startswith('uint'):
+        a = np.round(a) - min(0.0, float(np.min(np.round(a)))) if a.size else a
+        return [float(v) for v in np.clip(a, 0, np.iinfo(dtype).max)]
+    if dtype.startswith('int'):
+        return [float(v) for v in np.clip(np.round(a), np.iinfo(dtype).min, np.iinfo(dtype).max)]
+    return [float(np.dtype(dtype).type(v)) for v in a]
+
+
+def _call_sift(x, o, thr, cap, call=None, dtype=None):
+    """the real sift on a fresh WRITABLE copy (read-only inputs are C19's subject; an implementation may use its argument as
+    scratch space): every verdict compares with the pristine case['x'].
+    call: None = every option spelled out; 'omit' / 'none' / 'empty' = imf_opts left out / None / {} (the case's options are then
+    the documented DEFAULTS).  dtype: the array type the signal is stored in (its values are case['x'] exactly)."""
+    import emd
+    X = np.array(x, dtype=float)
+    if dtype not in (None, 'float64'):
+        Xd = X.astype(dtype)
+        if not np.array_equal(Xd.astype(float), X):
+            raise RuntimeError('harness: case values are not representable as %s' % dtype)
+        X = Xd
+    kw = S.sift_kwargs(o, thr, cap)
+    if call:
+        if any(o.get(k) != v for k, v in DEFAULTS.items()):
+            raise RuntimeError('harness: a default-options case must carry the documented defaults')
+        del kw['imf_opts']
+        if call == 'none':
+            kw['imf_opts'] = None
+        elif call == 'empty':
+            kw['imf_opts'] = {}
+        if call == 'omit':
+            kw = {k: v for k, v in kw.items() if k in ('sift_thresh', 'max_imfs') and not (k == 'sift_thresh' and v == 1e-8)}
+    return emd.sift.sift(X, **kw)
+
+
+def dominant_tone(rng, n):
+    """a pure / AM / FM tone (optionally on a faint trend): ONE IMF carries almost all the energy of its layer, so an energy-ratio
+    stop - had anybody asked for one - would fire after the first extraction (round-4 seeded change: the fallback options used when
+    imf_opts is omitted gained energy_thresh=50)"""
+    t = np.arange(n, dtype=float)
+    per = rng.uniform(6.0, 14.0)
+    am = 1 + rng.choice([0.0, 0.3, 0.5]) * np.sin(2 * np.pi * t / n + rng.uniform(0, 6.28))
+    fm = rng.choice([0.0, 0.2, 0.3]) * np.sin(2 * np.pi * t / n)
+    x = am * np.sin(2 * np.pi * (t / per + fm) + rng.uniform(0, 6.28))
+    return x * rng.choice([1.0, 1.0, 0.1, 20.0]) + rng.choice([0.0, 0.0, 0.02]) * t / n
+
+
+def _call_gni(x, o, dtype=None):
+    import emd
+    X = np.array(x, dtype=float)
+    if dtype not in (None, 'float64'):
+        X = X.astype(dtype)
+    return emd.sift.get_next_imf(X, envelope_opts=S.env_kwargs(o), extrema_opts=S.ext_kwargs(o), **S.imf_kwargs(o))
+
+
+def _peel(x, o, layers, with_paths=True, dtype=None):
+    """S.peel (manual peeling with the public get_next_imf, exit path of every layer) with writable inputs.
+    dtype: storage type of the input signal: the FIRST extraction sees the signal as stored (exactly what sift() hands to
+    get_next_imf; e.g. the SD metric of an int16 signal is evaluated in wrapped int16 arithmetic on the first iteration, which is
+    a matter of the stopping rule (C04), not of C01); every later residual is float64 in sift() as well."""
+    X = np.array(x, dtype=float)[:, None]
+    rows = []
+    r = X.copy()
+    imf = None
+    for k in range(layers):
+        path = None
+        try:
+            if with_paths:
+                ref = S.reference(r[:, 0].copy(), o, extra=0)
+                e = ref['exit']
+                path = 'truncated' if e is None else '%s@%s' % (e[0], '0' if e[1] == 0 else '>=1')
+        except S.Timeout:
+            raise           # the budget of the whole peeling: no table (skip:peeling-timeout), never a truncated one
+        except Exception:  # noqa
+            path = 'envelope-raises'
+        rin = r[:, 0].copy()
+        try:
+            c, f = _call_gni(rin, o, dtype if k == 0 else None)
+        except S.Timeout:
+            raise
+        except Exception as e:  # noqa
+            rows.append((rin, None, False, err_kind(e), path))
+            break
+        c = np.asarray(c)
+        rows.append((rin, c[:, 0].copy(), bool(f), None, path))
+        imf = c if imf is None else np.concatenate((imf, c), axis=1)
+        r = X - imf.sum(axis=1)[:, None]
+    return rows
+
+
+def burst_ramp(rng, n):
+    """a monotone ramp carrying ONE short burst of 2-4 oscillations close to one end: the few extrema sit far from the other
+    edge, so mirroring them out to it takes many rounds of the padding loop (round-3 seeded change: the loop gave up after 32
+    rounds and reported 'no extrema', which ends the sift on an oscillating component)"""
+    t = np.arange(n, dtype=float)
+    x = rng.choice([0.5, 1.0, 3.0]) * t / n
+    per = rng.choice([4, 5, 6, 8])
+    ncyc = rng.choice([2, 3, 3, 4])
+    m = min(per * ncyc, n - 4)
+    start = rng.randint(2, max(2, min(30, n - m - 2)))
+    b = np.arange(m)
+    burst = rng.uniform(0.3, 1.0) * np.sin(2 * np.pi * b / per + rng.uniform(0, 6.28)) * np.hanning(m + 2)[1:-1]
+    x[start:start + m] += burst
+    if rng.random() < 0.5:
+        x = x[::-1].copy()
+    if rng.random() < 0.3:
+        x = -x
+    return x
 
 
 class SiftRun(Stream):
@@ -60,6 +185,29 @@ class SiftRun(Stream):
         c.append({'x': S.fr_list(x), 'opts': dict(base), 'thr': 1e-8, 'cap': 2, 'family': 'corpus-cap'})
         c.append({'x': S.fr_list(x), 'opts': dict(base), 'thr': 30.0, 'cap': None, 'family': 'corpus-thr'})
         c.append({'x': S.fr_list(x), 'opts': dict(base, energy_thresh=20), 'thr': 1e-8, 'cap': None, 'family': 'corpus-energy'})
+        # round-3 seeded change (padding loop gives up after 32 rounds): a ramp with one short burst near its start; reflecting the
+        # 3 maxima / minima out to the far edge takes ~50 (n=400, period 6, pad 1) resp. ~40 (n=3000, period 24, pad 3) rounds
+        for n, per, pad, stop in ((400, 6, 1, 'sd'), (3000, 24, 3, 'rilling')):
+            t = np.arange(n)
+            y = 3.0 * t / n
+            m = int(2.5 * per)
+            y[20:20 + m] += 0.5 * np.sin(2 * np.pi * np.arange(m) / per) * np.hanning(m)
+            o = dict(base, pad_width=pad, stop_method=stop)
+            if stop == 'rilling':
+                o['rilling_thresh'] = [0.05, 0.5, 0.05]
+            c.append({'x': S.fr_list(y), 'opts': o, 'thr': 1e-8, 'cap': None, 'family': 'corpus-burst-ramp'})
+        # round-4 seeded changes: (1) imf_opts omitted / None / {} on an AM-FM tone must still be a complete decomposition (nobody
+        # asked for an energy stop); (2) the same integer values stored as int64 / int16 / uint8 (and float32 storage) stay additive
+        n = 400
+        t = np.arange(n)
+        y = (1 + .5 * np.sin(2 * np.pi * t / n)) * np.sin(2 * np.pi * (t / 9. + .3 * np.sin(2 * np.pi * t / n)))
+        for call in ('omit', 'none', 'empty'):
+            c.append({'x': S.fr_list(y), 'opts': dict(DEFAULTS), 'thr': 1e-8, 'cap': None, 'family': 'corpus-default-options', 'call': call})
+        iv = [3, 7, 2, 9, 4, 8, 1, 6, 5, 10, 0, 7, 3, 9, 2, 8, 4, 6, 1, 5, 9, 2, 7, 3]
+        for dt in STORAGE:
+            c.append({'x': as_stored(iv, dt), 'opts': dict(base), 'thr': 1e-8, 'cap': None, 'family': 'corpus-storage', 'dtype': dt})
+        c.append({'x': as_stored([v - 5 for v in iv], 'int16'), 'opts': dict(base, stop_method='fixed', max_iters=3, interp_method='pchip'),
+                  'thr': 1e-8, 'cap': None, 'family': 'corpus-storage', 'dtype': 'int16'})
         return c
 
     def generate(self, rng, tier):
@@ -67,6 +215,48 @@ class SiftRun(Stream):
             xo = S.gen_vanishing(rng)
             if xo is not None:
                 yield {'x': S.fr_list(xo[0]), 'opts': dict(xo[1], energy_thresh=None), 'thr': 1e-8, 'cap': None, 'family': 'vanishing'}
+        for i in range(120 if tier == 'thorough' else 12):
+            n = rng.choice([200, 300, 400, 600] + ([1000, 2000] if tier == 'thorough' else []))
+            o = S.gen_opts(rng, tier, allow_energy=False, family='burstramp')
+            o['pad_width'] = rng.choice([1, 1, 2, 3])
+            o['env_step_size'] = 1
+            if o['interp_method'] != 'splrep':
+                if rng.random() < 0.5:
+                    o['interp_method'] = 'splrep'
+                else:
+                    n = min(n, 300)     # pchip sifts of long signals keep peeling rounding-level layers (dozens of them): keep them short
+            if o['stop_method'] == 'fixed':
+                o['max_iters'] = rng.choice([3, 5, 10])
+            else:
+                o['max_iters'] = 50
+            yield {'x': S.fr_list(burst_ramp(rng, n)), 'opts': o, 'thr': 1e-8, 'cap': None, 'family': 'burstramp'}
+        for i in range(150 if tier == 'thorough' else 16):
+            # the built-in option defaults (imf_opts omitted / None / {}) on signals in which one IMF dominates its layer
+            n = rng.choice([64, 128, 200, 400])
+            x = dominant_tone(rng, n) if rng.random() < 0.8 else S.gen_signal(rng, rng.choice(['amfm', 'tones', 'noise']), n)
+            yield {'x': S.fr_list(x), 'opts': dict(DEFAULTS), 'thr': 1e-8, 'cap': None, 'family': 'default-options',
+                   'call': rng.choice(['omit', 'none', 'empty'])}
+        for i in range(200 if tier == 'thorough' else 24):
+            # the same real values held in an integer / single-precision array
+            dt = rng.choice(STORAGE)
+            n = rng.choice([12, 16, 24, 32, 48, 64])
+            if dt == 'float32':
+                x = S.gen_signal(rng, rng.choice(['noise', 'walk', 'tones', 'amfm', 'plateau']), n)
+            else:
+                fam = rng.choice(['plateau', 'int-walk', 'int-tones'])
+                if fam == 'plateau':
+                    x = np.round(S.gen_signal(rng, 'plateau', n))
+                elif fam == 'int-walk':
+                    x = np.cumsum([rng.randint(-4, 4) for _ in range(n)])
+                else:
+                    x = np.round(rng.choice([10, 40, 100]) * S.gen_signal(rng, 'tones', n))
+            o = S.gen_opts(rng, tier, allow_energy=False, family='noise')
+            o['env_step_size'] = 1
+            if o['stop_method'] == 'fixed':
+                o['max_iters'] = rng.choice([3, 5, 10])
+            elif o['max_iters'] < 10:
+                o['max_iters'] = 50
+            yield {'x': as_stored(x, dt), 'opts': o, 'thr': 1e-8, 'cap': None, 'family': 'storage', 'dtype': dt}
         ncase = 4000 if tier == 'thorough' else 330
         nmax = 384 if tier == 'thorough' else 64
         for i in range(ncase):
@@ -102,7 +292,7 @@ class SiftRun(Stream):
         out = {}
         try:
             with S.time_limit(IMPL_TIMEOUT):
-                imf = S.call_sift(x, o, case['thr'], case['cap'])
+                imf = _call_sift(x, o, case['thr'], case['cap'], call=case.get('call'), dtype=case.get('dtype'))
             imf = np.asarray(imf)
             out['res'] = {'shape': list(imf.shape), 'cols': _cols(imf) if imf.ndim == 2 else []}
             K = imf.shape[1] if imf.ndim == 2 else 0
@@ -114,7 +304,7 @@ class SiftRun(Stream):
                 return out
         try:
             with S.time_limit(IMPL_TIMEOUT):
-                rows = S.peel(x, o, K + 2, with_paths=True)
+                rows = _peel(x, o, K + 2, dtype=case.get('dtype'))
             out['table'] = [[S.fr_list(r), None if c is None else S.fr_list(c), f, err, path] for r, c, f, err, path in rows]
         except Exception as e:  # noqa
             out['table_error'] = err_kind(e)
@@ -127,7 +317,7 @@ class SiftRun(Stream):
 
     def compare(self, case, out, results):
         if isinstance(out, ImplError):
-            return 'harness impl wrapper raised %s' % out['error']
+            return 'skip:timeout' if out['error'] == 'Timeout' else 'harness impl wrapper raised %s' % out['error']
         if 'table' not in out:
             return 'skip:peeling-timeout'
         res = out['res']
@@ -166,7 +356,10 @@ class SiftRun(Stream):
 
     def holds(self, case, out):
         if isinstance(out, ImplError):
-            return [Failure('harness-crashed:' + out['error'], out.get('msg', ''))]
+            if out['error'] == 'Timeout':
+                return []          # run time is not C01's subject (C04 owns termination): skipped and tagged, see compare()
+            # impl() catches everything the library raises: what arrives here is a problem of the harness wrapper itself
+            return [Failure('harness-crashed:' + out['error'], out.get('msg', ''), literal=False)]
         res, o = out['res'], case['opts']
         x = np.array(case['x'], dtype=float)
         n = len(x)
@@ -174,11 +367,12 @@ class SiftRun(Stream):
         fs = []
         if 'error' in res:
             if res['error'] == 'Timeout':
-                return [Failure('does-not-terminate', 'no result within %ds' % IMPL_TIMEOUT)]
+                return []          # skipped and tagged (outer=raises:Timeout): C01 says nothing about run time
             if res['error'] == 'EMDSiftCovergeError':
-                # legitimate only if an extraction of the peeling table raises it too
+                # the documented error of the extraction layer: C01 is vacuous (no components). That the harness's own peeling
+                # hits the same error is a mechanism-level expectation (a differently rounded residual may differ on a borderline)
                 if 'table' in out and not any(r[3] == 'EMDSiftCovergeError' for r in out['table']):
-                    fs.append(Failure('converge-error-not-reproduced-by-peeling', ''))
+                    fs.append(Failure('converge-error-not-reproduced-by-peeling', '', literal=False))
                 return fs
             return [Failure('raises:' + res['error'], res.get('msg', ''))]
         if len(res['shape']) != 2 or res['shape'][0] != n or res['shape'][1] < 1:
@@ -201,13 +395,16 @@ class SiftRun(Stream):
             if pk >= 2 and tr >= 2:
                 fs.append(Failure('last-component-oscillatory', 'natural end but the last component has %d maxima and %d minima' % (pk, tr)))
         if case['cap'] is not None and case['cap'] >= 1 and K > case['cap']:
-            fs.append(Failure('more-components-than-cap', '%d > %d' % (K, case['cap'])))
+            # C03's statement (C01 only uses "cap reached" as an excuse): mechanism-level here
+            fs.append(Failure('more-components-than-cap', '%d > %d' % (K, case['cap']), literal=False))
         # extractor contract on the rows of the peeling table
         if 'table' in out and o.get('energy_thresh') is None:
             for k, (r, c, f, e, path) in enumerate(out['table']):
                 if c is not None and not f and not np.array_equal(np.array(c), np.array(r)):
+                    # an ASSUMPTION of the proof about the public helper, not C01's words about sift(): mechanism-level
                     fs.append(Failure('extractor-contract-broken:flag-cleared-on-modified-iterate',
-                                      'layer %d: get_next_imf cleared the continue flag but its output differs from its input' % k))
+                                      'layer %d: get_next_imf cleared the continue flag but its output differs from its input' % k,
+                                      literal=False))
                     break
         return fs
 
@@ -216,7 +413,8 @@ class SiftRun(Stream):
         t = ['family=' + case['family'], 'stop=' + o['stop_method'], 'interp=' + o['interp_method'], 'pad=%d' % o['pad_width'],
              'step=%s' % ('1' if o['env_step_size'] == 1 else '<1'),
              'cutshort-config=' + ('cap' if case['cap'] is not None else 'thr' if case['thr'] > 1e-8 else
-                                    'energy' if o.get('energy_thresh') is not None else 'none')]
+                                    'energy' if o.get('energy_thresh') is not None else 'none'),
+             'imf_opts=' + (case.get('call') or 'explicit'), 'dtype=' + (case.get('dtype') or 'float64')]
         if isinstance(out, ImplError):
             return t
         res = out['res']
@@ -255,6 +453,8 @@ class SiftRun(Stream):
             if 0 < cut and n - cut >= 3:
                 yield dict(case, x=x[cut:])
                 yield dict(case, x=x[:n - cut])
+        if case.get('call'):
+            return                  # a default-options case must keep the documented defaults
         if o['interp_method'] != 'splrep':
             yield dict(case, opts=dict(o, interp_method='splrep'))
         if o['pad_width'] != 2:
@@ -262,7 +462,7 @@ class SiftRun(Stream):
         if o['env_step_size'] != 1:
             yield dict(case, opts=dict(o, env_step_size=1))
         r = [round(v, 2) for v in x]
-        if r != x:
+        if r != x and not case.get('dtype'):
             yield dict(case, x=r)
 
 
@@ -296,7 +496,7 @@ class EnvNone(Stream):
 
     def compare(self, case, out, results):
         if isinstance(out, ImplError):
-            return 'interp_envelope raised %s' % out['error']
+            return 'skip:timeout' if out['error'] == 'Timeout' else 'interp_envelope raised %s' % out['error']
         r = results[0]
         if not r.ok:
             return 'model: ' + r.raw[:80]
@@ -306,15 +506,18 @@ class EnvNone(Stream):
         return None
 
     def holds(self, case, out):
+        # validator of an ASSUMPTION of the proof (how interp_envelope signals "no envelope"), not C01's own words: every kind
+        # of this stream is mechanism-level (a failure counts as a broken correspondence, never as a replayable C01 violation)
         if isinstance(out, ImplError):
-            return [Failure('envelope-raises:' + out['error'], out['msg'])]
+            return [] if out['error'] == 'Timeout' else [Failure('envelope-raises:' + out['error'], out['msg'], literal=False)]
         pk, tr = S.count_extrema(case['x'])
         fs = []
         if (pk < 2) != out['unone'] or (tr < 2) != out['lnone']:
-            fs.append(Failure('envelope-none-condition', '%d maxima / %d minima but upper None=%s lower None=%s' % (pk, tr, out['unone'], out['lnone'])))
+            fs.append(Failure('envelope-none-condition', '%d maxima / %d minima but upper None=%s lower None=%s'
+                              % (pk, tr, out['unone'], out['lnone']), literal=False))
         for k in ('ulen', 'llen'):
             if out[k] is not None and out[k] != len(case['x']):
-                fs.append(Failure('envelope-length', '%s=%s for %d samples' % (k, out[k], len(case['x']))))
+                fs.append(Failure('envelope-length', '%s=%s for %d samples' % (k, out[k], len(case['x'])), literal=False))
         return fs
 
     def tags(self, case, out):
